@@ -188,6 +188,7 @@ class Session:
         import uberjob
 
         self.uberjob = uberjob
+        self._seed = seed
         self.rp = rp
         self.ir = rp.ir
         self.H = rec.Harness(self.ir, record_args=True)
@@ -204,7 +205,7 @@ class Session:
             # node creation order is not a topological order: some dependent sources are declared first and wired up later
             if n.id in early:
                 norm = rp.normalising[n.id] if all_normalising is None else all_normalising
-                st = vstore.VStore(f"s{n.id}", self.clock, self.H, normalising=norm)
+                st = self._mk_store(n.id, norm)
                 self.stores[n.id] = st
                 if n.scope:
                     with self.plan.scope(*n.scope):
@@ -229,7 +230,7 @@ class Session:
                 else:
                     n.node = self.plan.lit(n.value)
                 norm = rp.normalising[n.id] if all_normalising is None else all_normalising
-                self.stores[n.id] = vstore.VStore(f"s{n.id}", self.clock, self.H, normalising=norm)
+                self.stores[n.id] = self._mk_store(n.id, norm)
                 pending_adds.append(n.id)
                 continue
             if n.kind == "source":
@@ -241,7 +242,7 @@ class Session:
                         pending_adds.remove(tgt)  # register the writing node BEFORE its alias source
                         self.registry.add(ir.nodes[tgt].node, st)
                 else:
-                    st = vstore.VStore(f"s{n.id}", self.clock, self.H, normalising=norm)
+                    st = self._mk_store(n.id, norm)
                 self.stores[n.id] = st
                 if n.scope:
                     with self.plan.scope(*n.scope):
@@ -263,7 +264,7 @@ class Session:
                     n.node = self.plan.call(fn, *args, **kwargs)
                 if role == "stored":
                     norm = rp.normalising[n.id] if all_normalising is None else all_normalising
-                    st = vstore.VStore(f"s{n.id}", self.clock, self.H, normalising=norm)
+                    st = self._mk_store(n.id, norm)
                     self.stores[n.id] = st
                     pending_adds.append(n.id)
             # registry.add at random later points => shuffled registry insertion order
@@ -294,6 +295,11 @@ class Session:
         self.side_post = post
         H.post = post
         self.chain_of = {d: ch for ch in prod.values() for d in ch}
+
+    def _mk_store(self, i, norm):
+        # one store in four has a length (0 while empty): a falsy store object
+        cls = vstore.SizedVStore if (self._seed + i * 7919) % 4 == 0 else vstore.VStore
+        return cls(f"s{i}", self.clock, self.H, normalising=norm)
 
     def delete(self, i):
         """Delete a stored value. A member of a chain of dependent sources is deleted together with the members before it: a later
